@@ -77,8 +77,13 @@ def declarative_check(frames, doc, mapping):
         return "lis2a", "metadata.lis2a is not the concatenated frame contents"
     per = {}
     order = []
+    from harness.props import C08
     for f in frames:
-        for rec in codec.decode(f):
+        # (records by the positional reference parser: split at CR, then at the delimiter bytes - not by the codec)
+        body = f.rstrip(b"\r\n")[2:-2]
+        body = body[:-2] if body.endswith(b"\r\x03") else body[:-1]
+        for raw_rec in body.split(b"\r"):
+            rec = C08.reference_parse(raw_rec, "latin-1")
             t = rec[0]
             if not isinstance(t, str) or t not in mapping:
                 continue
@@ -117,6 +122,22 @@ def gen_messages(r, module, specs, header_frame):
             l = r.choice(letters)
             recs.append(l.encode() + b"|" * (len(specs[l]["fields"]) + 2) + b"surplus")
             violating = True
+        elif k < 0.32:
+            # a record without any component delimiter whose field holds several occurrences (repeat delimiter only):
+            # occurrences of a repeatable field, or - in a field that takes one value - a violation
+            l = r.choice(letters)
+            fl = specs[l]["fields"]
+            reps = [i for i, f in enumerate(fl) if f["shape"] == "repeated" and i > 0]
+            texts = [i for i, f in enumerate(fl) if f["shape"] == "scalar" and i > 1 and f["scalar"]["kind"] in ("text", "plain")]
+            if reps and (r.random() < 0.6 or not texts):
+                i = r.choice(reps)
+            elif texts:
+                i = r.choice(texts)
+                violating = True
+            else:
+                continue
+            parts = [l.encode()] + [b""] * (i - 1) + [r.choice([b"GLU\\CREA", b"a\\b\\c", b"5.4\\5.6"])]
+            recs.append(b"|".join(parts))
         else:
             l = r.choice(letters)
             raw, _ = schemaio.gen_record(r, specs[l], fill=r.choice([0.2, 0.5, 0.95]))
